@@ -45,7 +45,7 @@ def mask_specs(ctx):
             if name in ("GeneticAlgorithmOptimizer", "DifferentialEvolutionOptimizer"):
                 cfg.pop("population", None)
             feas_, desc_ = None, None
-            if rng.random() < 0.25 and int(np.prod([len(v) for v in space.values()])) >= 6 and name != "GridSearchOptimizer":   # grid search under constraints: findings F-D5 / F-D7 of C08 / C02
+            if rng.random() < (0.7 if slow else 0.25) and int(np.prod([len(v) for v in space.values()])) >= 6 and name != "GridSearchOptimizer":   # grid search under constraints: findings F-D5 / F-D7 of C08 / C02
                 # under constraints too: "legal points afterwards" includes satisfying them (the fallbacks taken while no finite score exists)
                 feas_, desc_ = gen.gen_constraint(rng, space, kind=rng.choice(["halfspace", "band", "parity"]))
                 init = {"random": n_inits}
